@@ -114,7 +114,11 @@ func cleanupFilePos(tfile *token.File, cl engine.Changelog, comments []*ast.Comm
 			continue
 		}
 
-		for i := tfile.Line(dr.Start); i < tfile.Line(dr.End); i++ {
+		// Lines as they are in the file: //line directives must not
+		// be taken into account (MergeLine counts physical lines).
+		first := tfile.PositionFor(dr.Start, false).Line
+		last := tfile.PositionFor(dr.End, false).Line
+		for i := first; i < last; i++ {
 			if i > 0 {
 				linesToDelete[i] = struct{}{}
 			}
